@@ -48,6 +48,20 @@ APPLICATION_CONTEXT_NAME = uid.UID('1.2.840.10008.3.1.1.1')
 IMPLEMENTATION_UID = uid.UID('1.2.826.0.1.3680043.8.498.1.1.155105445218102811803000')
 
 
+def _max_length_sub_item(user_data):
+    """Finds Maximum Length sub-item among User Information sub-items.
+
+    Sub-items may come in any order, so position in the list can not be relied upon.
+
+    :param user_data: list of User Information sub-items
+    :return: Maximum Length sub-item or `None` if there is no such sub-item
+    """
+    for item in user_data:
+        if isinstance(item, userdataitems.MaximumLengthSubItem):
+            return item
+    return None
+
+
 def build_pres_context_def_list(context_def_list):
     """Builds a list of Presntation Context Items
 
@@ -198,7 +212,7 @@ class AssociationAcceptor(socketserver.StreamRequestHandler, Association):
         of the request sends association response based on
         acceptable_pr_contexts"""
         user_items = assoc_req.variable_items[-1]
-        max_pdu_sub_item = user_items.user_data[0]
+        max_pdu_sub_item = _max_length_sub_item(user_items.user_data)
         if self.max_pdu_length > max_pdu_sub_item.maximum_length_received:
             self.max_pdu_length = max_pdu_sub_item.maximum_length_received
         max_pdu_sub_item.maximum_length_received = self.max_pdu_length
@@ -387,12 +401,11 @@ class AssociationRequester(Association):
 
         # Get maximum pdu length from answer
         user_data = response.variable_items[-1].user_data
-        try:
-            max_pdu_length = user_data[0].maximum_length_received
+        max_pdu_sub_item = _max_length_sub_item(user_data)
+        if max_pdu_sub_item is not None:
+            max_pdu_length = max_pdu_sub_item.maximum_length_received
             if max_pdu_length and self.max_pdu_length > max_pdu_length:
                 self.max_pdu_length = max_pdu_length
-        except IndexError:
-            pass
 
         # Get accepted presentation contexts
         accepted = (ctx for ctx in response.variable_items[1:-1] if ctx.result_reason == 0)
